@@ -209,21 +209,49 @@ def run(chk, repo):
     env = {}
     finds = []          # (name, base text, lower bound) of `X = <base>[lo:].find('*')`
     fallback = None     # affine value assigned under `if X == -1`
+
+    def find_call(v):
+        return isinstance(v, ast.Call) and call_name(v) == 'find' and isinstance(v.func, ast.Attribute) and isinstance(v.func.value, ast.Subscript) \
+            and isinstance(v.func.value.slice, ast.Slice) and len(v.args) == 1 and isinstance(v.args[0], ast.Constant) and v.args[0].value == '*'
+
+    def reg_find(nm, v):
+        sl = v.func.value
+        finds.append((nm, unparse(sl.value), simple_aff(sl.slice.lower, env) if sl.slice.lower is not None else Aff(0), sl.slice.upper))
+        env[nm] = Aff.sym('L')       # the length of the ORF in residues, whichever branch defines it
+
     for st in lp[0].body:
         if isinstance(st, ast.Assign) and len(st.targets) == 1 and isinstance(st.targets[0], ast.Name):
             v = st.value
             nm = st.targets[0].id
-            if isinstance(v, ast.Call) and call_name(v) == 'find' and isinstance(v.func.value, ast.Subscript) and isinstance(v.func.value.slice, ast.Slice):
-                sl = v.func.value
-                finds.append((nm, unparse(sl.value), simple_aff(sl.slice.lower, env) if sl.slice.lower is not None else Aff(0), sl.slice.upper))
-                env[nm] = Aff.sym('L')       # the length of the ORF in residues, whichever branch defines it
+            if find_call(v):
+                reg_find(nm, v)
                 continue
+            if isinstance(v, ast.IfExp):
+                # L = fallback if <find> == -1 else <find>   (or the mirrored form)
+                pc = G.cmp_parts(v.test)
+                t_find = v.test.left if isinstance(v.test, ast.Compare) and find_call(v.test.left) else None
+                if t_find is not None and pc and pc[2] == '-1' and pc[1] in ('==', '!='):
+                    hit, miss = (v.orelse, v.body) if pc[1] == '==' else (v.body, v.orelse)
+                    if find_call(hit) and unparse(hit) == unparse(t_find):
+                        reg_find(nm, hit)
+                        fallback = (st, simple_aff(miss, {k: w for k, w in env.items() if k != nm}))
+                        continue
             a = simple_aff(v, env)
             env[nm] = a if a is not None else Aff.sym('?' + nm)
         elif isinstance(st, ast.If) and finds and unparse(st.test) == f"{finds[0][0]} == -1":
             for s2 in st.body:
                 if isinstance(s2, ast.Assign) and unparse(s2.targets[0]) == finds[0][0]:
                     fallback = (s2, simple_aff(s2.value, env))
+        elif isinstance(st, ast.If) and not finds and isinstance(st.test, ast.Compare) and find_call(st.test.left):
+            # if <find> == -1: L = fallback  else: L = <find>      (a length helper inlined by the normal form)
+            pc = G.cmp_parts(st.test)
+            if pc and pc[2] == '-1' and pc[1] in ('==', '!=') and len(st.body) == 1 and len(st.orelse) == 1:
+                hit, miss = (st.orelse[0], st.body[0]) if pc[1] == '==' else (st.body[0], st.orelse[0])
+                if all(isinstance(x, ast.Assign) and len(x.targets) == 1 and isinstance(x.targets[0], ast.Name) for x in (hit, miss)) \
+                        and hit.targets[0].id == miss.targets[0].id and find_call(hit.value) and unparse(hit.value) == unparse(st.test.left):
+                    fb = simple_aff(miss.value, env)
+                    reg_find(hit.targets[0].id, hit.value)
+                    fallback = (miss, fb)
     if len(finds) != 1:
         raise AnalysisError(f"anchor={ORFS}: stop-codon search `<seq>[start:].find('*')` not found")
     nm, base, lo, up = finds[0]
@@ -233,18 +261,29 @@ def run(chk, repo):
            f"fallback length is `{unparse(fallback[0].value) if fallback else None}` = {fallback[1] if fallback else None}, but the slice searched for '*' has "
            f"{want} residues: for an ORF running to the transcript end the header end coordinate differs from start + 3 * len(sequence) "
            "(frames 1 and 2 have fewer codons than len(tx) // 3 whenever len(tx) % 3 < frame)", key=f"{ORFS}::no-stop-length", fn=go.qual)
-    oe, os_, se, ss = env.get('orf_end'), env.get('orf_start'), env.get('seq_end'), env.get('seq_start')
+    # header coordinates: the two integers of the `<start>-<end>` field of the ORF name
+    hdr = [v for n in ast.walk(lp[0]) if isinstance(n, ast.JoinedStr) for v in [n.values]
+           if sum(isinstance(x, ast.FormattedValue) for x in v) >= 2]
+    oe = os_ = None
+    for vals in hdr:
+        for i in range(len(vals) - 2):
+            if isinstance(vals[i], ast.FormattedValue) and isinstance(vals[i + 1], ast.Constant) and vals[i + 1].value == '-' and isinstance(vals[i + 2], ast.FormattedValue):
+                os_, oe = simple_aff(vals[i].value, env), simple_aff(vals[i + 2].value, env)
     ok1 = None not in (oe, os_) and (oe - os_) == Aff.sym('L').scale(3)
     chk.ob('C08.f', 'orf_end - orf_start == 3 * length', go.where, bool(ok1), f"orf_end - orf_start = {oe - os_ if None not in (oe, os_) else None} (L = residues)",
            key=f"{ORFS}::nt-span", fn=go.qual)
+    # the listed sequence: the one bounded slice of the searched translation
+    sls = [n for n in ast.walk(lp[0]) if isinstance(n, ast.Subscript) and isinstance(n.slice, ast.Slice) and n.slice.upper is not None
+           and isinstance(n.ctx, ast.Load) and base in (unparse(n.value), unparse(n.value) + '.seq')]
+    ss = se = None
+    if len(sls) == 1:
+        ss = simple_aff(sls[0].slice.lower, env) if sls[0].slice.lower is not None else Aff(0)
+        se = simple_aff(sls[0].slice.upper, env)
     ok2 = None not in (se, ss) and (se - ss) == Aff.sym('L') and ss == lo
     chk.ob('C08.f', 'seq_end - seq_start == length, and seq_start is where the stop search began', go.where, bool(ok2),
            f"seq_end - seq_start = {se - ss if None not in (se, ss) else None}; search began at {lo}, slice begins at {ss}", key=f"{ORFS}::aa-span", fn=go.qual)
-    sls = [n for n in ast.walk(lp[0]) if isinstance(n, ast.Subscript) and isinstance(n.slice, ast.Slice) and n.slice.upper is not None
-           and unparse(n.slice.lower or ast.Constant(0)) == 'seq_start' and unparse(n.slice.upper) == 'seq_end']
-    ok3 = len(sls) == 1 and base in (unparse(sls[0].value), unparse(sls[0].value) + '.seq')
-    chk.ob('C08.f', 'the listed sequence is [seq_start:seq_end] of the translation that was searched', go.where, ok3,
-           f"listed slice base {[unparse(x.value) for x in sls]} vs searched {base}", key=f"{ORFS}::same-translation", fn=go.qual)
+    chk.ob('C08.f', 'the listed sequence is [seq_start:seq_end] of the translation that was searched', go.where, len(sls) == 1,
+           f"bounded slices of the searched translation {base}: {[unparse(x) for x in sls]}", key=f"{ORFS}::same-translation", fn=go.qual)
     # ------------------------------------------------------------------ shared: option plumbing by name
     from rules.shared import optname
     chk.clauses.append('C08.g (shared R-THREAD) an option value bound to a name that is itself a CLI option carries that very option')
